@@ -629,10 +629,19 @@ func (n *Normer) addrPath(v ssa.Value) (root string, path string, ok bool) {
 
 // rootAlloc returns the Alloc an address is derived from (through FieldAddr and free variables)
 // and the field path as selector indices.
+// ptrAlias: pointer-typed parameters known to point to a struct allocated elsewhere (the receiver of
+// a method value whose receiver was built by the function under analysis). Set by a rule for the
+// duration of its analysis.
+var ptrAlias = map[ssa.Value]*ssa.Alloc{}
+
 func rootAlloc(v ssa.Value) (*ssa.Alloc, []int, bool) {
 	switch x := v.(type) {
 	case *ssa.Alloc:
 		return x, nil, true
+	case *ssa.Parameter:
+		if a, ok := ptrAlias[x]; ok {
+			return a, nil, true
+		}
 	case *ssa.FieldAddr:
 		a, p, ok := rootAlloc(x.X)
 		if !ok {
